@@ -86,6 +86,7 @@ type c03Res struct {
 	Remote     string       `json:"remote"`     // RemoteAddr().String() as the handler saw it
 	RemoteLen  int          `json:"remote_len"` // length of the net.IP in the address object (0: neither TCP nor UDP address)
 	RemoteIP   string       `json:"remote_ip"`  // hex of the IP the address denotes ("" = none)
+	RemoteZone string       `json:"remote_zone"` // the Zone field of the TCP / UDP address object
 	Phantom    string       `json:"phantom"`    // hex of the original destination as handed to the handler
 	Status     int          `json:"status"` // used/unused state of the registration a transport returned (-1: none returned)
 }
@@ -254,16 +255,24 @@ func c03Remote(peer, form string, port int) net.Addr {
 	if peer == "-" {
 		return c03StrAddr{"pipe"}
 	}
+	// "fe80::1%eth0": a scoped (link-local) peer - the address object carries the zone next to the IP
+	zone := ""
+	for i := 0; i < len(peer); i++ {
+		if peer[i] == '%' {
+			peer, zone = peer[:i], peer[i+1:]
+			break
+		}
+	}
 	ip := net.ParseIP(peer)
 	switch form {
 	case "tcp4":
 		return &net.TCPAddr{IP: ip.To4(), Port: port}
 	case "udp":
-		return &net.UDPAddr{IP: ip, Port: port}
+		return &net.UDPAddr{IP: ip, Port: port, Zone: zone}
 	case "str":
 		return c03StrAddr{net.JoinHostPort(ip.String(), fmt.Sprint(port))}
 	}
-	return &net.TCPAddr{IP: ip, Port: port}
+	return &net.TCPAddr{IP: ip, Port: port, Zone: zone}
 }
 func (c *c03Conn) vfLogRelayStart()         {}
 func (c *c03Conn) vfLogRelayRead(b []byte) {}
@@ -386,9 +395,9 @@ func c03Run(s *vfStation, cs c03Case, wg *sync.WaitGroup, out *c03Res) {
 	var rip net.IP
 	switch x := ra.(type) {
 	case *net.TCPAddr:
-		rip, out.RemoteLen = x.IP, len(x.IP)
+		rip, out.RemoteLen, out.RemoteZone = x.IP, len(x.IP), x.Zone
 	case *net.UDPAddr:
-		rip, out.RemoteLen = x.IP, len(x.IP)
+		rip, out.RemoteLen, out.RemoteZone = x.IP, len(x.IP), x.Zone
 	default:
 		if host, _, err := net.SplitHostPort(ra.String()); err == nil {
 			rip = net.ParseIP(host)
